@@ -7,7 +7,9 @@
    level are arbitrary functions with the stated length / involution premises. *)
 From Coq Require Import List NArith Arith Bool Lia.
 From GmsmVerif Require Import Lib.Outcome Gen.TLSSuites Resume.LruModel Resume.LruProofs
-  Resume.TicketModel Resume.TicketProofs Resume.ResumeModel Resume.ResumeProofs.
+  Resume.TicketModel Resume.TicketProofs Resume.ResumeModel Resume.ResumeProofs
+  Resume.TicketReach Resume.TicketEncoding Resume.ResumeRecords
+  Rec.RecordSpec Rec.RecordModel Rec.RecordRoundtrip Agree.KeyModel Agree.ConstTie.
 Import ListNotations.
 Close Scope N_scope.
 
@@ -23,6 +25,22 @@ Print Assumptions C16_sessionState_roundtrip.
 Theorem C16_sessionState_unmarshal_total : forall data, no_crash (unmarshal data).
 Proof. exact unmarshal_total. Qed.
 Print Assumptions C16_sessionState_unmarshal_total.
+
+(* ... and every state the handshake code serialises fits those widths: the state sendSessionTicket builds
+   after a full handshake (uint16 version and suite, the 48-byte master secret, the certificates of one
+   Certificate message of at most maxHandshake bytes) and the one it builds when it refreshes a ticket in a
+   resumed handshake (master secret and certificates of whatever unmarshal returned) - so the round trip
+   holds for all reachable states; whatever unmarshal accepts fits them too. *)
+Theorem C16_created_states_roundtrip :
+  forall s, created s ->
+    wf_state s /\ unmarshal (marshal s) = Ok (mkSS (ss_vers s) (ss_suite s) (ss_ms s) (ss_certs s) false).
+Proof. intros s H. split; [exact (created_wf s H)|exact (unmarshal_marshal s (created_wf s H))]. Qed.
+Print Assumptions C16_created_states_roundtrip.
+
+Theorem C16_unmarshal_wf :
+  forall data s, TicketReach.bytes_ok data -> unmarshal data = Ok s -> wf_state s.
+Proof. exact unmarshal_wf. Qed.
+Print Assumptions C16_unmarshal_wf.
 
 (* 2. decryptTicket on bytes: total for all byte strings, keys, and primitives; success implies the
    length minimum (key name 16 + IV 16 + MAC 32), tickets enabled, the first key of that name, a MAC over
@@ -64,6 +82,12 @@ Theorem C16_ticket_bytes_roundtrip :
 Proof. exact decrypt_encrypt_bytes. Qed.
 Print Assumptions C16_ticket_bytes_roundtrip.
 
+(* the key-name length of the byte model is the source's ticketKeyNameLen (Gen/TLSSuites.v, regenerated from
+   /repo on every run); the other two lengths are aes.BlockSize and sha256.Size of the Go standard library *)
+Theorem C16_ticket_constants : N.of_nat TicketModel.ticketKeyNameLen = gen_ticketKeyNameLen.
+Proof. exact ticket_constants_tie. Qed.
+Print Assumptions C16_ticket_constants.
+
 (* 3. The gate with an ideal MAC: decryptTicket succeeds exactly when tickets are enabled, some configured
    key has the ticket's key name, and the ticket is what encryptTicket produced under that key for the
    returned state; usedOldKey <-> that key is not the first one. *)
@@ -96,6 +120,32 @@ Theorem C16_modified_ticket_rejected :
     decryptTicket_model mac tag_eqb disabled keys t = None.
 Proof. intros tagT mac tag_eqb junk (H1 & H2 & H3). exact (modified_ticket_rejected mac tag_eqb junk H1 H2 H3). Qed.
 Print Assumptions C16_modified_ticket_rejected.
+
+(* The two ticket models are tied: interpret key numbers as ticket keys with distinct 16-byte names, nonces
+   as 16-byte IVs and symbolic states as byte states that fit the widths; then opening the byte encoding of
+   an authentic symbolic ticket with decryptTicket_bytes yields the encoding of what decryptTicket_model
+   yields - same success, same state, same usedOldKey - for every key list, tickets enabled or not. *)
+Theorem C16_ticket_encoding :
+  forall (ctr : list N -> list N -> list N -> list N) (hmacf : list N -> list N -> list N),
+    (forall k m, length (hmacf k m) = 32) ->
+    (forall k iv m, length (ctr k iv m) = length m) ->
+    (forall k iv m, ctr k iv (ctr k iv m) = m) ->
+  forall (tagT : Type) (mac : N -> N * N * sst -> tagT) tag_eqb,
+    (forall a b, tag_eqb a b = true <-> a = b) ->
+  forall (kb : N -> tkeyB) (ivb : N -> list N) (stb : sst -> sstate),
+    (forall k, length (kb_name (kb k)) = 16) ->
+    (forall k k', kb_name (kb k) = kb_name (kb k') -> k = k') ->
+    (forall i, length (ivb i) = 16) ->
+    (forall st, wf_state (stb st)) ->
+  forall disabled keys (t : ticket tagT),
+    authentic mac t ->
+    decryptTicket_bytes ctr hmacf disabled (map kb keys) (ticket_bytes ctr hmacf kb ivb stb t) =
+    match decryptTicket_model mac tag_eqb disabled keys t with
+    | Some (st, old) => Ok (with_old (stb st) old)
+    | None => Err 1
+    end.
+Proof. exact encoding_commutes. Qed.
+Print Assumptions C16_ticket_encoding.
 
 (* 4. The decision (GM variant gm = true, TLS variant gm = false) is the conjunction of the statement:
    tickets enabled, the ticket passes the gate, same version as negotiated, suite offered by the client,
@@ -148,6 +198,32 @@ Proof.
   destruct (HR Hc) as (r0 & A & B & C & D & E & F & G & H). exists r0. repeat split; assumption.
 Qed.
 Print Assumptions C16_history_invariant.
+
+(* 6b. Record protection of a resumed connection is that of a full handshake.  A resumed handshake runs the
+   establishKeys of a full one over the master secret it took from the ticket / the cached session (by
+   C16_history_invariant: the issuing handshake's) and the fresh hello randoms.  For every master secret,
+   randoms and suite lengths both ends cut the same key block and install it mirrored, and every fragment
+   sealed by one end under sequence number s is opened by the other, both moving to s+1 - the record-layer
+   round trip of C07 (premise prims_ok: the block cipher, MAC and AEAD are functions with the right lengths
+   and open(seal) = id). *)
+Theorem C16_resumed_record_protection :
+  forall (hmac : list N -> list N -> list N) (P : prims), prims_ok P ->
+  forall fuel ms cr sr macLen keyLen ivLen slices (aead : bool) s h3 eiv frag,
+    keysFromMasterSecret_model hmac fuel ms cr sr macLen keyLen ivLen = Ok slices ->
+    (s < 2 ^ 64 - 1)%N -> length h3 = 3 ->
+    length eiv = (if aead then 8 else p_bs P) -> RecordSpec.bytes_ok eiv -> RecordSpec.bytes_ok frag ->
+    (N.of_nat (length frag) + N.of_nat (p_macSize P) < 2 ^ 30)%N ->
+    forall client_writes : bool,
+    let c := establishKeys_client slices in
+    let sv := establishKeys_server slices in
+    let w := half_conn aead VersionGMSSL (if client_writes then ck_out c else ck_out sv) (be64 s) in
+    let r := half_conn aead VersionGMSSL (if client_writes then ck_in sv else ck_in c) (be64 s) in
+    exists w' rec_ r',
+      encrypt P w (h3 ++ len_bytes (length frag) ++ eiv ++ frag) (length eiv) = Ok (w', rec_)
+      /\ decrypt P r rec_ = Ok (r', Some frag)
+      /\ hc_seq w' = be64 (s + 1) /\ hc_seq r' = be64 (s + 1) /\ same_keys w' r'.
+Proof. intros hmac P HP. exact (resumed_record_roundtrip hmac P HP). Qed.
+Print Assumptions C16_resumed_record_protection.
 
 (* ... and a connection is only ever resumed when the decision said so: by construction of [connect],
    stated for one connection *)
@@ -255,6 +331,25 @@ Example C16_decision_examples :
   /\ checkForResumption_model term_mac term_tag_eqb true (mkS SGM None false 1 true [1]) 257 [57363] (Some t) = None
   /\ checkForResumption_model term_mac term_tag_eqb true (mkS SGM None false 1 false [2; 3]) 257 [57363] (Some t) = None
   /\ checkForResumption_model term_mac term_tag_eqb true (mkS SGM None false 1 false [2; 1]) 257 [57363] (Some t) = Some (st, true).
+Proof. vm_compute. repeat split; reflexivity. Qed.
+
+(* reachable states: a full-handshake state with a client certificate chain *)
+Example C16_created_example :
+  created (mkSS 257 57363 (repeat 7 48) [repeat 48 700; repeat 49 650] false).
+Proof. apply created_full; try reflexivity; vm_compute; try reflexivity; discriminate. Qed.
+
+(* the encoding equation on a concrete instance (toy primitives: identity "CTR", constant 32-byte "MAC") *)
+Example C16_ticket_encoding_example :
+  let ctr := fun (_ _ m : list N) => m in
+  let hmacf := fun (_ _ : list N) => repeat 9 32 in
+  let kb := fun k => mkKeyB (repeat k 16) [k] [k] in
+  let ivb := fun i => repeat i 16 in
+  let stb := fun st => mkSS (st_vers st) (st_suite st) (repeat (st_ms st) 48) [] false in
+  let t := seal term_mac 3 5 (mkSt 257 57363 2 0) in
+  decryptTicket_bytes ctr hmacf false (map kb [4; 3]) (ticket_bytes ctr hmacf kb ivb stb t)
+    = Ok (mkSS 257 57363 (repeat 2 48) [] true)
+  /\ decryptTicket_model term_mac term_tag_eqb false [4; 3] t = Some (mkSt 257 57363 2 0, true)
+  /\ decryptTicket_bytes ctr hmacf false (map kb [4; 6]) (ticket_bytes ctr hmacf kb ivb stb t) = Err 1.
 Proof. vm_compute. repeat split; reflexivity. Qed.
 
 (* bytes: a state round-trips; a truncated encoding is refused without a panic *)
